@@ -108,11 +108,14 @@ class SimFS:
         self.opens = 0
         self.stats = Counter()
         self.exists_true = []  # arguments for which exists() answered True (path-collision evidence)
+        self.no_collision = False  # fault removed: the path-or-string test never finds a source text on disk
 
     def exists(self, p):
         if not isinstance(p, (str, bytes)):
             return False
         hit = p in self.files or p in self.dirs
+        if hit and self.no_collision:
+            return False
         if hit:
             self.exists_true.append(p)
         return hit
